@@ -14,6 +14,8 @@ Three layers, all run on every invocation:
 import os, json, hashlib, subprocess, threading
 import vcheck, conc_check
 
+_last_buckets = None
+
 H = os.path.join(vcheck.VERIF, "harness", "C16")
 NKEYS = 6
 LOOP_FUEL = 40000      # fuel of the spin / retry loops of the models: larger than the step limit of a run
@@ -311,6 +313,8 @@ def history_of(kind, lines, finals, nthreads):
 
 def parse_finals(extra):
     finals = []; size = None; size_after = None; dup = None
+    global _last_buckets
+    _last_buckets = None
     for x in extra:
         t = x.split()
         if t[:2] == ["final", "key"]:
@@ -321,6 +325,8 @@ def parse_finals(extra):
             size_after = int(t[2])
         elif t[:2] == ["final", "dup"]:
             dup = int(t[2])
+        elif t[:2] == ["final", "buckets"]:
+            _last_buckets = int(t[2])
     return finals, size, size_after, dup
 
 
@@ -361,6 +367,8 @@ def judge(ctx, kind, name, cases, logs, lin, stats, tag):
             st["fuel"] += 1
             continue
         finals, size, size_after, dup = parse_finals(lg["extra"])
+        if _last_buckets is not None and _last_buckets > (16 if kind.startswith("striped") else (2 if c["cfg"][1] <= 2 else 4)):
+            st["resizes_seen"] += 1
         nth = len(c["threads"])
         h, errs = history_of(kind, lg["lines"], finals, nth)
         st["ops"] += sum(len(t) for t in c["threads"])
@@ -485,6 +493,8 @@ def run(ctx):
         "distinct_event_logs": len(shapes), "corpus_cases": len(corpus),
         "variants": len(stats), "per_variant": stats,
         "histories_decided_by_verified_lincheck": sum(s["lin_ok"] for s in stats.values()),
+        "cases_with_a_resize": sum(s["resizes_seen"] for s in stats.values()),
+        "cases_hitting_the_step_limit": sum(s["fuel"] for s in stats.values()),
         "samples": [allcases["cuckoo_i"][0], allcases["striped_i0"][0]],
         "step_correspondence": corr,
         "traces_validated_against_impl": sum(v["agree"] for v in corr.values()),
